@@ -1,0 +1,6 @@
+//go:build verif
+
+package mux
+
+// VerifChunks returns the demuxer's top-level chunk list (verification hook).
+func (d *Demuxer) VerifChunks() []Chunk { return d.chunks }
